@@ -31,8 +31,8 @@ CHECKS.update({
  "C04": dict(level="proof", engine="A", technique="Coq/Flocq theorems (Props/C04.v): mpc add/sub/mul/mul_mpf/add_mpf are componentwise Flocq roundings of the exact complex result, square real part, structural equality; Gallina model of libmpc arithmetic in correspondence; componentwise correct rounding (add/sub/mul/square/mul_mpf/mul_int/pow n>=0) and 4-ulp modulus bound (div/reciprocal/negative powers) decided exactly; mpc operators and equality at API level",
    text="Complex add/sub/mul/square/pow are compositions of exact products and one correctly rounded add per component in the model (normalize theorems apply); the model is tied to the code by correspondence and every generated case is decided by an exact-rational oracle, including the division family's error bound and exact equality with complex/int/float/mpf. Theorems in Props/C04.v state componentwise correct rounding of add, sub, mul, scaling and the real part of square for all regular components, precisions and modes, and that mpc equality is equality of both components.",
    note=TB_A + " Division/reciprocal/negative-power error bounds are decided by the exact oracle, not by a theorem."),
- "C05": dict(level="proof", engine="A", technique="Coq theorems (Props/C05.v): mpf_cmp returns the sign of the exact difference for all canonical finite operands, lt/le/gt/ge agree with the real order, nan unordered; Gallina model of mpf_cmp/lt/le/gt/ge/eq, mpf_hash, mpc_hash in correspondence; exact-rational order oracle; hash agreement against the interpreter's hash() of int/float/complex",
-   text="Comparison and hash routines are transliterated and tied by correspondence on same-top-bit, tiny-difference, cross-sign and special pairs; at API level every comparison across mpf/int/float/mpc/complex is decided against exact rationals and equal values are required to have equal hash(). Theorems in Props/C05.v: for all finite canonical operands mpf_cmp is the sign of the exact difference and mpf_lt/le/gt/ge hold exactly when the real-number relation holds (so the order inherits totality, antisymmetry and transitivity from the reals); nan is unordered.",
+ "C05": dict(level="proof", engine="A", technique="Coq theorems (Props/C05.v): mpf_cmp returns the sign of the exact difference for all canonical finite operands, lt/le/gt/ge agree with the real order, nan unordered; mpf_hash = CPython's integer hash for integer-valued mpfs, the unique solution of h*2^k = m (mod 2^61-1) for dyadic rationals, mpc_hash(x,0) = mpf_hash x (pure Z, axiom-free); Gallina model of mpf_cmp/lt/le/gt/ge/eq, mpf_hash, mpc_hash in correspondence; exact-rational order oracle; hash agreement against the interpreter's hash() of int/float/complex",
+   text="Comparison and hash routines are transliterated and tied by correspondence on same-top-bit, tiny-difference, cross-sign and special pairs; at API level every comparison across mpf/int/float/mpc/complex is decided against exact rationals and equal values are required to have equal hash(). Theorems in Props/C05.v: for all finite canonical operands mpf_cmp is the sign of the exact difference and mpf_lt/le/gt/ge hold exactly when the real-number relation holds (so the order inherits totality, antisymmetry and transitivity from the reals); nan is unordered. The hash theorems derive from 2^61 = 1 (mod 2^61-1) that mpf_hash follows the interpreter's rule hash(m/2^k) = m*(2^k)^-1 mod P for every finite value, hence equal numbers hash equally across int, mpf and real-valued mpc.",
    note=TB_A + " CPython's numeric hash is the reference (validated against the running interpreter on every run)."),
  "C06": dict(level="proof", engine="A", technique="Coq theorems (Props/C06.v): to_int/floor/ceil/nint/frac against Zfloor/Zceil/ZnearestE; Gallina model of round_int/to_int/mpf_round_int/floor/ceil/nint/frac/mpf_mod (+complex) in correspondence; exact definitions decided with rationals",
    text="Integer-part functions and modulo are transliterated; the model is tied by correspondence and each case is decided against the mathematical definition (floor, ceil, ties-to-even nint, frac in [0,1), sign and magnitude of x mod y) with correct rounding at the working precision. Theorems in Props/C06.v: the integer-part functions return Flocq's Zfloor/Zceil/ZnearestE of the value (rounded to prec), frac = x - floor x.",
